@@ -132,6 +132,39 @@ def spec : SFn → Nat → Args → World → SOut
               | .exc _ _ => { r with unspec := true, w := { r.w with oinv := r.w.oinv + 1 } }    -- "when both agree": other raising is not covered
         | _ => r
 
+/-! ### Re-entrant calls (recursion, callbacks): what the UNDECORATED function does, and how many calls were made
+
+Written from the property text, without wrappers: every call of the function binds, journals one body invocation, makes the
+planned nested calls and returns the script's outcome; `n` counts the calls made (the outer one, the nested ones, calls that fail
+to bind included) — "count_calls counts every call once" says that this is what the counter moves by. -/
+
+structure ROut where
+  res : RTag
+  calls : List Ev          -- body invocations in the order they start
+  n : Nat                  -- calls of the function made, this one included
+  w : World
+deriving Repr
+
+def specPlan (f : Args → World → ROut) : List Args → World → List Ev × Nat × World
+  | [], w => ([], 0, w)
+  | a :: rest, w =>
+    let o := f a w
+    let r := specPlan f rest o.w
+    (o.calls ++ r.1, o.n + r.2.1, r.2.2)
+
+def specReent (b : Body) (plan : Nat → List Args) : Nat → Args → World → ROut
+  | fuel, a, w =>
+    match bind b.sig a with
+    | none => ⟨.exc (.lib "TypeError"), [], 1, w⟩
+    | some bd =>
+      let i := w.inv
+      let w1 : World := { w with inv := w.inv + 1 }
+      match fuel with
+      | 0 => ⟨outcTag (b.script i), [.body .wrapped i bd], 1, w1⟩
+      | k + 1 =>
+        let r := specPlan (specReent b plan k) (plan i) w1
+        ⟨outcTag (b.script i), .body .wrapped i bd :: r.1, 1 + r.2.1, r.2.2⟩
+
 /-- "the base class lacks the name": the name is not among the names the class lists as its own — by default the names
     bound in its class body or in the body of one of its ancestors (whatever object is bound there: a method, a property,
     `None`, `0`, …); what merely the *metaclass* binds or answers (`mro`, `__call__`, a `__getattr__` hook) is not a name of
